@@ -429,6 +429,53 @@ def run_chain_case(case, ctx):
             return
 
 
+# ---- E2 part: operation histories on the C02 worlds ------------------------------------------------------
+
+from mc.history import explore_from, replay_history
+from props import c02 as _c02
+
+
+class ImmutabilitySystem(_c02.MPSSystem):
+    """Same worlds and menu as C02; the judged invariant is: objects that are not the documented target of an operation stay
+    bit-for-bit unchanged, and distinct objects of the world never share array memory."""
+
+    def check_state(self, w, ctx):
+        objs = {'psi': w.psi, 'phi': w.phi, 'H': w.H, 'K': w.K}
+        names = list(objs)
+        for i, a in enumerate(names):
+            for b in names[i + 1:]:
+                sh = shares(objs[a], objs[b])
+                ctx.check(not sh, f'world_objects_share_no_state[{a},{b}]', sh[:1])
+
+    def check(self, before, after, label, info, ctx):
+        op = label[0]
+        if op.startswith('psi') or op.startswith('tdvp') or op.startswith('dmrg') or op.startswith('split_merge'):
+            target = 'psi'
+        elif op.startswith('H'):
+            target = 'H'
+        else:
+            target = 'K'
+        for name in ('psi', 'phi', 'H', 'K'):
+            if name == target:
+                continue
+            ctx.check(snap(getattr(after, name)) == snap(getattr(before, name)), f'{op}:only_documented_target_changes', f'{name} changed')
+
+
+_ISYS = ImmutabilitySystem()
+
+
+def _hist_chunk(chunk, seed):
+    desc, depth = chunk
+    return explore_from(_ISYS, desc, _c02.build_world, depth, seed, 'world_histories')
+
+
+def replay_case(space, case, seed):
+    if space.name == 'world_histories':
+        return replay_history(_ISYS, case['init'], _c02.build_world, case['ops'], seed, 'world_histories')
+    ctx = space.run_one(case, seed)
+    return ctx.fails
+
+
 def _op_cases():
     for name in OPS:
         for L in (1, 2, 3):
@@ -446,6 +493,8 @@ def _chain_cases():
 
 
 def sig(case):
+    if isinstance(case, dict):
+        return case['init']['world'] + ':' + '>'.join(str(o[0]) for o in case['ops'])
     return str(case[0]) if case[0] != 'chain' else f'chain:{case[2]}>{case[3]}'
 
 
@@ -455,4 +504,8 @@ def spaces(tier, seed):
               bounds={'operations': sorted(OPS), 'L': [1, 2, 3], 'charge_kinds': ['zero', 'u1'], 'dtypes': ['complex', 'real']}),
         Space('two_step_chains', core.chunked(_chain_cases(), 6), run_case=run_chain_case, sig=sig,
               bounds={'binary_ops': CHAIN_OPS, 'start': ['psi', 'H'], 'L': [1, 2, 3]}),
+        Space('world_histories', [({'world': w}, 2 if tier == 'quick' else 3) for w in ('xxz3', 'ising3', 'fh2', 'bh3', 'linf3', 'mol4')],
+              run_chunk=_hist_chunk, sig=sig,
+              bounds={'worlds': ['xxz3', 'ising3', 'fh2', 'bh3', 'linf3', 'mol4'], 'depth': 2 if tier == 'quick' else 3,
+                      'menu': 'the 23-operation menu of C02', 'invariant': 'non-target objects bit-identical; no shared array memory between objects'}),
     ]
